@@ -10,6 +10,7 @@
 * Reach:      sys.monitoring LINE events, DISABLEd after the first hit of each location, restricted
               to files of the tree under test -> which anchored lines the workload actually executed.
 """
+import hashlib
 import importlib
 import os
 import pkgutil
@@ -553,6 +554,43 @@ class Reach(object):
 
 
 # ----------------------------------------------------------------------------- global state
+
+def library_module_state(prefix='py_stringsimjoin'):
+    """Module-level variables of the library (not functions / classes / modules): where state that
+    survives a call can live besides the arguments.  A change is not a violation by itself (a cache
+    may be harmless); it is what makes C12 compare later calls with runs in a fresh process."""
+    import types
+    out = {}
+    for name, mod in list(sys.modules.items()):
+        if mod is None or not (name == prefix or name.startswith(prefix + '.')):
+            continue
+        for k, v in list(vars(mod).items()):
+            if k.startswith('__') or isinstance(v, (types.ModuleType, types.FunctionType, type,
+                                                    types.BuiltinFunctionType)) or callable(v):
+                continue
+            try:
+                if isinstance(v, (dict, list, set, frozenset, tuple)):
+                    r = repr(v)
+                    s = '%s[%d]:%s' % (type(v).__name__, len(v), hashlib.sha1(r.encode()).hexdigest()[:10]
+                                       if len(r) > 200 else r)
+                else:
+                    s = repr(v)[:200]
+            except Exception:
+                s = '<unrepr>'
+            out['%s.%s' % (name, k)] = s
+    # caches of functools.lru_cache-wrapped functions
+    for name, mod in list(sys.modules.items()):
+        if mod is None or not (name == prefix or name.startswith(prefix + '.')):
+            continue
+        for k, v in list(vars(mod).items()):
+            ci = getattr(v, 'cache_info', None)
+            if ci is not None and callable(ci):
+                try:
+                    out['%s.%s.cache' % (name, k)] = repr(ci())
+                except Exception:
+                    pass
+    return out
+
 
 def global_state():
     """Process-wide state a library call must leave alone ("no call affects a later one"):
